@@ -95,11 +95,11 @@ type SolveOpts struct {
 var fileCounter int
 var fileMu sync.Mutex
 
-func Solve(script string, opts SolveOpts) *SolveResult { return SolveAided(script, "", opts) }
+func Solve(script string, opts SolveOpts) *SolveResult { return SolveAided(script, "", "", opts) }
 
 // SolveAided: aided is the same query plus hypotheses that are consequences of the others (instances of
 // quantified hypotheses): an answer on either script is an answer for the query.
-func SolveAided(script, aided string, opts SolveOpts) *SolveResult {
+func SolveAided(script, aided, ground string, opts SolveOpts) *SolveResult {
 	write := func(txt string) (string, error) {
 		fileMu.Lock()
 		fileCounter++
@@ -120,6 +120,13 @@ func SolveAided(script, aided string, opts SolveOpts) *SolveResult {
 		}
 		defer os.Remove(afile)
 	}
+	gfile := ""
+	if ground != "" {
+		if gfile, err = write(ground); err != nil {
+			return &SolveResult{Status: "error", Output: err.Error()}
+		}
+		defer os.Remove(gfile)
+	}
 	res := &SolveResult{Script: script}
 	ctx := context.Background()
 	// stage 1: z3-new with a short budget, on the plain and then on the aided script
@@ -127,7 +134,7 @@ func SolveAided(script, aided string, opts SolveOpts) *SolveResult {
 	if t1 > 2 {
 		t1 = 2
 	}
-	for _, f := range []string{file, afile} {
+	for _, f := range []string{gfile, file, afile} {
 		if f == "" {
 			continue
 		}
@@ -135,9 +142,15 @@ func SolveAided(script, aided string, opts SolveOpts) *SolveResult {
 		if f == afile {
 			nm += "+inst"
 		}
+		if f == gfile {
+			nm += "+ground"
+		}
 		st, out, el := runSolver(ctx, solvers[0], f, t1)
 		res.Tried = append(res.Tried, fmt.Sprintf("%s:%s:%.2fs", nm, st, el))
 		res.Seconds += el
+		if f == gfile && st != "unsat" {
+			continue // the ground arm is a weakening: only a refutation counts
+		}
 		if st == "unsat" || st == "sat" {
 			res.Status, res.Solver, res.Output = st, nm, out
 			if opts.Thorough && st == "unsat" {
@@ -164,6 +177,11 @@ func SolveAided(script, aided string, opts SolveOpts) *SolveResult {
 	var entries []entry
 	for _, i := range []int{1, 2, 0} {
 		entries = append(entries, entry{i, file, solvers[i].Name})
+	}
+	if gfile != "" {
+		for _, i := range []int{0, 1} {
+			entries = append(entries, entry{i, gfile, solvers[i].Name + "+ground"})
+		}
 	}
 	if afile != "" {
 		for _, i := range []int{0, 1} {
@@ -192,6 +210,9 @@ func SolveAided(script, aided string, opts SolveOpts) *SolveResult {
 			continue
 		}
 		res.Tried = append(res.Tried, fmt.Sprintf("%s:%s:%.2fs", x.name, x.st, x.el))
+		if x.file == gfile && x.st != "unsat" {
+			continue
+		}
 		if x.st == "unsat" || x.st == "sat" {
 			best = x
 			cancel()
